@@ -95,6 +95,7 @@ MUTS = [
 def prepare_lean():
     """scratch copy of the Lean tree including its build outputs (only the changed modules are rebuilt)"""
     shutil.rmtree(LEAN, ignore_errors=True)
+    os.makedirs(ROOT, exist_ok=True)
     # other builds may be running in the real tree: files that vanish during the copy are rebuilt in the scratch tree
     subprocess.run(["cp", "-a", "/verif/lean", LEAN], capture_output=True)
     assert os.path.isdir(os.path.join(LEAN, "GrinVerif", "Props"))
